@@ -447,6 +447,7 @@ var c03Aliasing = []string{
 	"%kids.toString()", "%kids.first().toString()", "%e.toString()", "%kids.join(',')", "%multis.join(',')", "%multi.skip(1) & 'x'", "%multi.tail().first() + 1",
 	"%names.where(family = 'Smith').given", "%names.select(given)", "%names.given.distinct()", "%names.tail().family", "%names.exclude(%name)", "%names.intersect(%name)",
 	"%kids.where($this / 0)", "%kids.select(nosuchfield)", "%kids.first().nosuchfield", "%e.nosuchfield", "%kids.skip('a')", "%kids.take(%multi)",
+	"%fdnp = %fdnp", "%fdnp.toString()", "%fdtnp.toString()", "%fdtnp = %fdt", "%fdtnp < %fdt", "%ftnp.toString()", "%fdnp.toDateTime()", "%fdtnp.toDate()", "%fdnp + 1 day", "%fdtnp in %multi", "%ftnp = @T01:02:03",
 	"%kids.as(Patient)", "%kids.first() as Element", "%kids.first() is Element", "%r is DomainResource", "%r as Resource",
 }
 
